@@ -758,3 +758,92 @@ func TestVerifC04History(t *testing.T) {
 	})
 	_ = detrand.Used
 }
+
+// TestVerifC04HourRollover runs only when the real clock is about to reach a full
+// hour (the code reads time.Now() itself and offers no way to move its clock):
+// handshakes accepted before the rollover must still be refused as replays after
+// it, while they are inside the +-1 h window, and fresh ones must still work.
+func TestVerifC04HourRollover(t *testing.T) {
+	vfSetup(t)
+	c := ev.For("C04")
+	c.Rule("hour-rollover (opportunistic): when the next full hour of the real clock is at most B seconds away (quick B = 10, thorough B = 150, VERIF_C04_WAIT_ROLLOVER overrides), handshakes stamped with the current and the next hour are accepted before the rollover and replayed after it; oracle: every replay is refused like invalid input although the server's hour has changed, fresh handshakes are accepted; otherwise the unit is skipped and counted")
+	budget := 10
+	if ev.Thorough() {
+		budget = 150
+	}
+	budget = ev.IntEnv("VERIF_C04_WAIT_ROLLOVER", budget)
+	left := 3600 - int(time.Now().Unix()%3600)
+	if left > budget || left < 3 {
+		c.Excluded("hour-rollover unit skipped: the next full hour was too far away (or too close) at run time", 1)
+		return
+	}
+	br := vfBridge{ID: refobfs4.NewIdentity(vfEnt(0xc04a)(52)), Seed: vfEnt(0xc04b)(24)}
+	sf, err := vfServerFactory(br)
+	if err != nil {
+		t.Fatalf("VIOL[c04-serverfactory]: %v", err)
+	}
+	ent := vfEnt(0xc04c)
+	hour0 := vfHourNow()
+	type acc struct {
+		hs  []byte
+		off int64
+	}
+	var accepted []acc
+	for _, off := range []int64{0, 1, 0, 1} {
+		hs, ok, _, _, sc, err := vfAcceptOne(sf, br, ent, off)
+		if sc != nil {
+			defer sc.n.Shutdown()
+		}
+		if err != nil {
+			t.Fatalf("VIOL[c04-wedge]: %v", err)
+		}
+		if !ok {
+			if vfHourNow() != hour0 {
+				c.Excluded("hour changed while the first half of the rollover unit ran", 1)
+				return
+			}
+			t.Fatalf("VIOL[c04-fresh-rejected]: fresh handshake stamped %+d was not accepted before the rollover", off)
+		}
+		accepted = append(accepted, acc{hs, off})
+	}
+	for vfHourNow() == hour0 {
+		time.Sleep(200 * time.Millisecond)
+	}
+	time.Sleep(300 * time.Millisecond)
+	for i, a := range accepted {
+		sc, err := vfOpenServerConn(sf)
+		if sc != nil {
+			defer sc.n.Shutdown()
+		}
+		if err != nil {
+			t.Fatalf("VIOL[c04-wedge]: %v", err)
+		}
+		sc.n.Inject(wire.A, a.hs)
+		sc.n.ReleaseAll(wire.A)
+		if err := sc.n.WaitQuiescent(wire.B); err != nil {
+			t.Fatalf("VIOL[c04-wedge]: %v", err)
+		}
+		if sc.n.Written(wire.B) != 0 || (sc.ep.SetupDone() && sc.ep.SetupErr() == nil) {
+			t.Fatalf("VIOL[c04-replay-accepted-after-hour-change]: handshake #%d (stamped %+d relative to the hour before the rollover) was accepted before the server's hour changed and is accepted AGAIN after it (byte-identical replay, still inside the +-1 h window)", i, a.off)
+		}
+		if msg := vfFinish(sc, i%2 == 0); msg != "" {
+			t.Fatalf("%s", strings.Replace(msg, "VIOL[c03-", "VIOL[c04-", 1))
+		}
+		if _, msg := vfCheckSilent(sc, i%2 == 0); msg != "" {
+			t.Fatalf("%s (replay after the hour change)", strings.Replace(msg, "VIOL[c03-", "VIOL[c04-", 1))
+		}
+	}
+	// fresh ones (stamped with the new hour and the previous one) are still accepted
+	for _, off := range []int64{0, -1} {
+		_, ok, _, _, sc, err := vfAcceptOne(sf, br, ent, off)
+		if sc != nil {
+			defer sc.n.Shutdown()
+		}
+		if err != nil || !ok {
+			t.Fatalf("VIOL[c04-fresh-rejected]: fresh handshake stamped %+d was not accepted after the rollover (%v)", off, err)
+		}
+	}
+	c.Bulk(int64(len(accepted)+2), int64(len(accepted)))
+	c.Class("hour-rollover-replays", int64(len(accepted)))
+	c.Sample(ev.Hash("rollover", hour0), map[string]any{"unit": "hour-rollover", "hour_before": hour0, "replays_refused_after_rollover": len(accepted)})
+}
